@@ -136,6 +136,11 @@ func BatchIsValidMaps(
 				return err
 			}
 
+			if m.Manifest().Height() != height {
+				return util.ErrInvalid.Errorf(
+					"wrong height BlockMap; expected %d, but %d", height, m.Manifest().Height())
+			}
+
 			if err := func() error {
 				validateLock.Lock()
 				defer validateLock.Unlock()
